@@ -212,6 +212,7 @@ impl Shape {
 }
 
 //@ item struct SurfaceIter
+//@ item struct SurfaceMutIter
 //@ item struct SurfaceView
 //@ item struct SurfaceOwnedView
 
@@ -319,6 +320,59 @@ impl<'a, T> SurfaceIter<'a, T> {
     //@+     ({ let k = old(self).index as int; let s = old(self).shape;
     //@+        &&& k < s.height * s.width ==> r == Some(&old(self).data@[spec_offset(s, Position { row: (k / s.width as int) as usize, col: (k % s.width as int) as usize })])
     //@+        &&& k >= s.height * s.width ==> r is None }),
+}
+
+// position of the k-th element in row-major order
+pub open spec fn pos_of(s: Shape, k: int) -> Position {
+    Position { row: (k / s.width as int) as usize, col: (k % s.width as int) as usize }
+}
+
+// the safety argument behind the `unsafe` in SurfaceMutIter::nth: two different iteration indices never
+// denote the same element, so the iterator (whose index only grows) never hands out a location twice
+proof fn lemma_iter_offsets_distinct(s: Shape, win: Win, n: nat, k1: int, k2: int)
+    requires rep(s, win, n), 0 <= k1 < k2 < s.height * s.width,
+    ensures
+        in_win(win, pos_of(s, k1)), in_win(win, pos_of(s, k2)),
+        spec_offset(s, pos_of(s, k1)) != spec_offset(s, pos_of(s, k2)),
+{
+    assert(s.width > 0) by (nonlinear_arith) requires 0 < s.height * s.width, s.height >= 0, s.width >= 0;
+    lemma_divmod(k1, s.width as int, s.height as int);
+    lemma_divmod(k2, s.width as int, s.height as int);
+    let p1 = pos_of(s, k1);
+    let p2 = pos_of(s, k2);
+    if spec_offset(s, p1) == spec_offset(s, p2) {
+        lemma_injective(s, win, n, p1, p2);
+        assert(k1 == (k1 / s.width as int) * s.width + k1 % s.width as int);
+        assert(k2 == (k2 / s.width as int) * s.width + k2 % s.width as int);
+        assert(false);
+    }
+}
+
+// N8: `let ptr = self.data.as_mut_ptr(); unsafe { &mut *ptr.add(offset) }` is replaced by this call; its
+// precondition is the safety condition of the pointer arithmetic (the dereference itself is trusted).
+#[verifier::external_body]
+fn slice_item_mut_unchecked<'a, T>(data: &mut &'a mut [T], offset: usize) -> (r: &'a mut T)
+    requires offset < old(data)@.len(),
+    ensures final(data)@.len() == old(data)@.len(),
+{
+    let ptr = data.as_mut_ptr();
+    unsafe { &mut *ptr.add(offset) }
+}
+
+impl<'a, T> SurfaceMutIter<'a, T> {
+    //@ fn impl<'a, T: 'a> Iterator for SurfaceMutIter<'a, T> :: nth ret=r
+    //@+ requires
+    //@+     exists|win: Win| rep(old(self).shape, win, old(self).data@.len()),
+    //@+     old(self).index + n + 1 <= usize::MAX,
+    //@+ ensures
+    //@+     final(self).index == old(self).index + n + 1,
+    //@+     final(self).shape == old(self).shape, final(self).data@.len() == old(self).data@.len(),
+    //@+     ({ let k = old(self).index + n; let s = old(self).shape;
+    //@+        &&& k < s.height * s.width ==> r is Some
+    //@+        &&& k >= s.height * s.width ==> r is None }),
+    //@subst N5 associated type of the dropped trait impl spelled out /Self::Item/&'a mut T/
+    //@subst N8 raw-pointer element access replaced by a call whose precondition is the safety condition /let ptr = self\.data\.as_mut_ptr\(\);\s*let item = unsafe \{ &mut \*ptr\.add\(offset\) \};/let item = slice_item_mut_unchecked(&mut self.data, offset);/
+    //@proof after:/let\spos\s=/ proof { let w0 = choose|win: Win| rep(old(self).shape, win, old(self).data@.len()); lemma_offset(self.shape, w0, self.data@.len(), pos); }
 }
 
 // ---------------------------------------------------------------- SurfaceMut: writes stay inside the window (frame)
